@@ -732,6 +732,9 @@ func (rg *rig) serve(src, desired Ver, nreq int, plan []Step) (o ReqObs) {
 		}
 		out, resp, exit := concretise(st, k, o.Chain[k], desired, nreq)
 		o.Outs = append(o.Outs, out)
+		// a run number may have been prepared for a step of an earlier request that was never
+		// executed (its chain ended early): nothing of that may be left for this run
+		_ = os.Remove(filepath.Join(rg.state, fmt.Sprintf("resp.%d", base+k)))
 		if resp != "" {
 			_ = os.WriteFile(filepath.Join(rg.state, fmt.Sprintf("resp.%d", base+k)), []byte(resp), 0o644)
 		}
